@@ -8,6 +8,6 @@ CONSTANTS
   NReps <- MCNReps
   IndexBySortedId = TRUE
   CutAtN = FALSE
-  CanonicalFirst = FALSE
+  CanonicalFirst = TRUE
 INVARIANTS TypeOK C42_SameSet C42_AtLeastN C42_AllWhenDisabled
 CHECK_DEADLOCK FALSE
